@@ -289,7 +289,7 @@ Proof.
   - (* a send *)
     destruct (send_step _ _ _ _ S H) as [r0 [m [ok [who [Ea [Eg [Ei [Es [Er [Ec Hw]]]]]]]]]].
     destruct who as [w|].
-    + destruct Hw as [Hl [Eh [from [q [cm [again [op [rest [Ew [Ehd [Eo [rest' [Ew' Hr]]]]]]]]]]]]].
+    + destruct Hw as [Hl [Eh [from [q [cm [again [op [rest [Ew [Ehd [Eo [Ecl [rest' [Ew' Hr]]]]]]]]]]]]]].
       destruct w.
       * pose proof (b_broker st B) as Wb. unfold wf_broker in Wb. rewrite Ew in Wb.
         simpl in Wb. apply andb_true_iff in Wb as [Wb _].
@@ -434,7 +434,7 @@ Proof.
   - (* a send *)
     destruct (send_step _ _ _ _ S H) as [r0 [m [ok [who [Ea [Eg [Ei [Es [Er [Ec Hw]]]]]]]]]].
     destruct who as [w|].
-    + destruct Hw as [Hl [Eh [from [q [cm [again [op [rest [Ew [Ehd [Eo [rest' [Ew' Hr]]]]]]]]]]]]].
+    + destruct Hw as [Hl [Eh [from [q [cm [again [op [rest [Ew [Ehd [Eo [Ecl [rest' [Ew' Hr]]]]]]]]]]]]]].
       destruct w.
       * pose proof (b_broker st B) as Wb. unfold wf_broker in Wb. rewrite Ew in Wb.
         simpl in Wb. apply andb_true_iff in Wb as [Wb _].
